@@ -72,6 +72,29 @@ func c18One(p *run.Part, spec entrySpec, wk string) {
 	}
 	wantNext, wantRefs := e.GetNext(), e.GetRefs()
 	hasLinks := len(wantNext)+len(wantRefs) > 0
+	if wk != "none" && hasLinks {
+		// the other form in which the library writes an entry: without its signature (CreateEntryOptions.PreSigned).
+		// Whatever the form, a keyed codec never stores the links in clear.
+		st2 := store.New()
+		pre, perr := wio.(iface.IOPreSign).PreSign(e)
+		if perr == nil {
+			if h2, err := entry.ToMultihashWithIO(world.Ctx, pre, st2, &iface.CreateEntryOptions{PreSigned: true}, wio); err == nil {
+				if raw2, ok := st2.Raw(h2); ok {
+					if nd2, err := store.Decode(h2, raw2); err == nil {
+						if n := len(nd2.Links()); n != 0 {
+							viol("-", "leak:ipld-links:unsigned-form", fmt.Sprintf("the entry written without its signature exposes %d traversable links", n))
+						}
+						for _, l := range append(append([]cid.Cid{}, wantNext...), wantRefs...) {
+							if bytes.Contains(raw2, l.Bytes()) {
+								viol("-", "leak:binary-cid:unsigned-form", fmt.Sprintf("the entry written without its signature contains the binary identifier of link %s", l))
+								break
+							}
+						}
+					}
+				}
+			}
+		}
+	}
 	raw, ok := st.Raw(e.GetHash())
 	if !ok {
 		viol("-", "block-missing", "entry block not stored")
